@@ -263,6 +263,7 @@ func TestC03_SharedChannelSenders(t *testing.T) {
 	ev.Rule(c03, "rapid, concurrent senders on ONE channel: configuration as in Delivery; 1..6 channels, each with 2..4 lanes (goroutines) calling Send concurrently on the same channel from the client or from the server handler, starting with the very first Sends of a fresh channel, message sizes 16 B..1 MiB relative to the window with one lane leading with a large message; the channel is closed by SendAndClose (with or without payload) either after the lanes joined or racing them from lane 0; the receiver reads to the end status; oracle: per lane seq 0,1,2.. in order with exact bytes, every Send that returned OK is delivered before the end, closing payload last; non-trivial = >=2 lanes with >=1 message each")
 	ev.CheckScaled(t, c03, 1, 2, func(rt *rapid.T) {
 		cfg := drawConfig(rt)
+		cfg.Sched = drawSched(rt)
 		w := cfg.effWindow()
 		n := rapid.IntRange(1, 6).Draw(rt, "channels")
 		var scripts []*sharedScript
@@ -324,6 +325,7 @@ func TestC03_SharedChannelSenders(t *testing.T) {
 }
 
 func runC03b(cfg netConfig, scripts []*sharedScript) (f failure) {
+	defer cfg.Sched.install()()
 	withProcs(cfg.Procs, func() {
 		log := netfx.NewLogger()
 		er := &errs{}
